@@ -1,9 +1,8 @@
 SPECIFICATION Spec
 CONSTANTS
-  Mode = "chain1"
-  Inits <- InitsChainQ
-  MaxDepth = 2
-  ChainFull = FALSE
+  Inits <- InitsT
+  ChainDepth = 2
+  ChainFull = TRUE
   Dump = TRUE
 INVARIANT RefSound
 INVARIANT RefInBuffer
